@@ -1,45 +1,832 @@
 //! Correspondence and oracle runs of property C06.
+//!
+//! For every case the REAL chip synthesises a one-operation circuit, the REAL `MockProver`
+//! checks it, and
+//! * the request line (operands as they sit in the circuit) goes to the Lean model, whose answer
+//!   must equal the implementation's (`ok <result>` / `unsat`; for the native chip also the full
+//!   content of the nine ECC columns and the three ECC selectors);
+//! * the oracle of the property is checked directly: an honest witness of a satisfiable
+//!   operation is accepted and the result in the circuit equals the result of the group
+//!   operation computed by the curve library (`oracle_fail` otherwise);
+//! * under fault injection (hook H1) on the advice cells written by the operation, and with the
+//!   public inputs bound to a different result, the circuit must reject (`oracle_fail`
+//!   otherwise).
+use midnight_proofs::{circuit::verif_hooks::Fault, dev::MockProver};
 use mzkh::Ctx;
 use num_bigint::BigUint;
+use rand_core::RngCore;
+use serde_json::json;
 
-use crate::circ::{self, Op, Spec};
+use crate::{
+    circ::{self, Op, Pt, Run, Spec, Suite, F},
+    gates,
+};
+
+/// Buffered output of one job (jobs run on worker threads; events are replayed in order).
+pub enum Event {
+    Count(String, u64),
+    Case(String, String, String),
+    Fail(String, String, serde_json::Value),
+}
+
+#[derive(Default)]
+pub struct Out {
+    ev: Vec<Event>,
+}
+
+impl Out {
+    fn count(&mut self, k: &str) {
+        self.ev.push(Event::Count(k.to_string(), 1));
+    }
+    fn count_n(&mut self, k: &str, n: u64) {
+        self.ev.push(Event::Count(k.to_string(), n));
+    }
+    fn case(&mut self, kind: &str, _nontrivial: bool, line: &str, answer: &str) {
+        self.ev.push(Event::Case(kind.to_string(), line.to_string(), answer.to_string()));
+    }
+    fn oracle_fail(&mut self, key: &str, what: &str, detail: serde_json::Value) {
+        self.ev.push(Event::Fail(key.to_string(), what.to_string(), detail));
+    }
+}
+
+type Job = Box<dyn FnOnce() -> Out + Send>;
+
+/// Runs the jobs on `threads` OS threads (each job's synthesis stays on one thread, as the H1
+/// tamper plan is thread-local) and replays their events in job order.
+fn run_jobs(ctx: &mut Ctx, jobs: Vec<Job>, threads: usize) {
+    use std::sync::{atomic::{AtomicUsize, Ordering}, Mutex};
+    let n = jobs.len();
+    let slots: Vec<Mutex<Option<Job>>> = jobs.into_iter().map(|j| Mutex::new(Some(j))).collect();
+    let results: Vec<Mutex<Option<Out>>> = (0..n).map(|_| Mutex::new(None)).collect();
+    let next = AtomicUsize::new(0);
+    std::thread::scope(|sc| {
+        for _ in 0..threads.max(1) {
+            sc.spawn(|| loop {
+                let i = next.fetch_add(1, Ordering::SeqCst);
+                if i >= n {
+                    break;
+                }
+                let job = slots[i].lock().unwrap().take().unwrap();
+                let out = match mzkh::catch(job) {
+                    Ok(o) => o,
+                    Err(p) => {
+                        let mut o = Out::default();
+                        o.oracle_fail(&format!("harness-job-panic:{i}"), "a harness job panicked outside the guarded region", json!({"panic": p}));
+                        o
+                    }
+                };
+                *results[i].lock().unwrap() = Some(out);
+            });
+        }
+    });
+    for r in results {
+        let out = r.into_inner().unwrap().unwrap_or_default();
+        for e in out.ev {
+            match e {
+                Event::Count(k, n) => ctx.count_n(&k, n),
+                Event::Case(kind, line, ans) => ctx.case(&kind, true, &line, &ans),
+                Event::Fail(k, w, d) => ctx.oracle_fail(&k, &w, d),
+            }
+        }
+    }
+}
+
+static LAYOUT: std::sync::OnceLock<JubLayout> = std::sync::OnceLock::new();
+fn layout() -> &'static JubLayout {
+    LAYOUT.get_or_init(JubLayout::new)
+}
 
 fn b(n: u64) -> BigUint {
     BigUint::from(n)
 }
 
+fn pow2(n: u32) -> BigUint {
+    BigUint::from(1u8) << n
+}
+
+fn hex(n: &BigUint) -> String {
+    mzkh::big_hex(n)
+}
+
+fn rand_big(rng: &mut impl RngCore, below: &BigUint) -> BigUint {
+    let mut bytes = vec![0u8; (below.bits() as usize + 7) / 8 + 8];
+    rng.fill_bytes(&mut bytes);
+    BigUint::from_bytes_le(&bytes) % below
+}
+
+/// Run with an adaptive number of rows.
+fn run_k<S: Suite>(spec: &Spec, faults: impl Fn() -> Vec<(usize, Fault<F>)>, inst: Option<Vec<F>>) -> (Run, u32) {
+    let mut spec = spec.clone();
+    loop {
+        let r = S::run(&spec, faults(), inst.clone());
+        let small = match &r.verdict {
+            Err(e) => e.contains("NotEnoughRowsAvailable") || e.contains("not enough rows"),
+            _ => false,
+        };
+        if small && spec.k < 19 {
+            spec.k += 1;
+            continue;
+        }
+        return (r, spec.k);
+    }
+}
+
+fn no_faults() -> Vec<(usize, Fault<F>)> {
+    vec![]
+}
+
+fn pt_word(weier: bool, p: &Pt, fixed: bool) -> String {
+    let k = if fixed { "f" } else { "w" };
+    if weier {
+        format!("{k}:{}:{}:{}", p.id.unwrap_or(false) as u8, hex(&p.x), hex(&p.y))
+    } else {
+        format!("{k}:{}:{}", hex(&p.x), hex(&p.y))
+    }
+}
+
+/// The request line of a case (operands as coordinates).
+fn op_line<S: Suite>(spec: &Spec) -> String {
+    let pts: Vec<String> =
+        spec.pts.iter().map(|(d, f)| pt_word(S::WEIER, &S::input_pt(d), *f)).collect();
+    let terms = || -> String {
+        spec.scalars
+            .iter()
+            .zip(pts.iter())
+            .map(|(s, p)| format!("{} {}", hex(s), p))
+            .collect::<Vec<_>>()
+            .join(" ")
+    };
+    let body = match &spec.op {
+        Op::Assign | Op::AssignFixed | Op::Double | Op::Neg | Op::Coords | Op::SubgroupCheck => {
+            format!("{} {}", spec.op.name(), pts[0])
+        }
+        Op::Add | Op::IsEqual => format!("{} {} {}", spec.op.name(), pts[0], pts[1]),
+        Op::Select(bit) => format!("select {} {} {}", *bit as u8, pts[0], pts[1]),
+        Op::Msm | Op::MsmBounded(_) => format!("msm {} {}", pts.len(), terms()),
+        Op::MsmBits(_) => format!("msm_bits {} {}", pts.len(), terms()),
+        Op::MulConst => format!("mul_const {} {}", hex(&spec.scalars[0]), pts[0]),
+        Op::MulLeBytes => format!("mul_bits 256 {} {}", hex(&spec.scalars[0]), pts[0]),
+        Op::MulConvert => format!("mul_bits 255 {} {}", hex(&spec.scalars[0]), pts[0]),
+    };
+    format!("{} {}", S::NAME, body)
+}
+
+/// Content of the nine ECC advice columns and the three ECC selectors of the native chip.
+pub struct JubLayout {
+    cols: Vec<usize>,
+    sels: Vec<usize>,
+}
+
+impl JubLayout {
+    pub fn new() -> Self {
+        let cs = gates::jub_cs();
+        let (cols, sels) = gates::ecc_cols_and_selectors(&cs, &gates::JUB_GATES);
+        assert_eq!(cols.len(), 9);
+        assert_eq!(sels.len(), 3);
+        JubLayout { cols, sels }
+    }
+
+    pub fn table(&self, mp: &MockProver<F>) -> String {
+        use midnight_proofs::dev::CellValue;
+        let adv = mp.advice();
+        let sel = mp.selectors();
+        let n = adv[self.cols[0]].len();
+        let mut rows = vec![];
+        for r in 0..n {
+            let cells: Vec<Option<F>> = self
+                .cols
+                .iter()
+                .map(|c| match &adv[*c][r] {
+                    CellValue::Assigned(v) => Some(*v),
+                    _ => None,
+                })
+                .collect();
+            let flags: Vec<bool> = self.sels.iter().map(|s| sel[*s][r]).collect();
+            if cells.iter().all(|c| c.is_none()) && !flags.iter().any(|f| *f) {
+                continue;
+            }
+            let fl = format!(
+                "{}{}{}",
+                if flags[0] { "d" } else { "-" },
+                if flags[1] { "c" } else { "-" },
+                if flags[2] { "m" } else { "-" }
+            );
+            let cs: Vec<String> = cells
+                .iter()
+                .map(|c| c.map(|v| mzkh::fe_hex(&v)).unwrap_or_else(|| "_".into()))
+                .collect();
+            rows.push(format!("{fl}:{}", cs.join(",")));
+        }
+        if rows.is_empty() {
+            "-".into()
+        } else {
+            rows.join(";")
+        }
+    }
+}
+
+fn render_pt(p: &Pt) -> String {
+    match p.id {
+        None => format!("{} {}", hex(&p.x), hex(&p.y)),
+        Some(i) => format!("{} {} {}", i as u8, hex(&p.x), hex(&p.y)),
+    }
+}
+
+/// Is the case expected to be unsatisfiable by the documentation of the instruction?
+fn documented_unsat<S: Suite>(spec: &Spec) -> bool {
+    let zero = b(0);
+    match &spec.op {
+        // "The identity cannot be constructed through this function."
+        Op::Coords => S::WEIER && spec.pts[0].0 == zero,
+        // msm_by_le_bits: "Unsatisfiable Circuit: if the precondition (base != identity) is violated"
+        Op::MsmBits(_) => spec.pts.iter().any(|(d, _)| *d == zero),
+        _ => false,
+    }
+}
+
+/// The recorded finding D-C06-2.
+fn known_identity_large_const<S: Suite>(spec: &Spec) -> bool {
+    S::WEIER
+        && spec.op == Op::MulConst
+        && spec.pts[0].0 == b(0)
+        && (&spec.scalars[0] % S::order()) >= pow2(128)
+}
+
+/// One case: correspondence line + oracles. Returns the run (for the tamper sweep).
+fn do_case<S: Suite>(ctx: &mut Out, class: &str, spec: &Spec) {
+    let lay: Option<&JubLayout> = if S::WEIER { None } else { Some(layout()) };
+    let line = op_line::<S>(spec);
+    let (r, k) = run_k::<S>(spec, no_faults, None);
+    let kind = format!("{}:{}", S::NAME, spec.op.name());
+    ctx.count(&format!("class:{}:{}", S::NAME, class));
+    let key = format!("{}:{}:{}", S::NAME, spec.op.name(), class);
+    let detail = |r: &Run| {
+        json!({"request": line.chars().take(1500).collect::<String>(), "verdict": format!("{:?}", r.verdict),
+               "failures": r.failures, "result": format!("{:?}", r.outcome.result), "expected": format!("{:?}", r.expected), "k": k})
+    };
+    let answer = match &r.verdict {
+        Ok(true) => {
+            ctx.count(&format!("accepted:{}", S::NAME));
+            if spec.op == Op::IsEqual {
+                format!("ok {}", r.outcome.bits.first().map(|b| *b as u8).unwrap_or(9))
+            } else {
+                let res = r.outcome.result.clone();
+                match res {
+                    None => "ok ?".to_string(),
+                    Some(p) => {
+                        if let (Some(lay), Some(mp)) = (lay, r.prover.as_ref()) {
+                            format!("ok {} | {}", render_pt(&p), lay.table(mp))
+                        } else {
+                            format!("ok {}", render_pt(&p))
+                        }
+                    }
+                }
+            }
+        }
+        Ok(false) => "unsat".to_string(),
+        Err(e) => {
+            ctx.count(&format!("synthesis-panic:{kind}"));
+            let _ = e;
+            "unsat".to_string()
+        }
+    };
+    ctx.case(&kind, true, &line, &answer);
+    // oracle: honest witness accepted, result = group operation
+    let sat_expected = !documented_unsat::<S>(spec);
+    match (&r.verdict, sat_expected) {
+        (Ok(true), true) => {
+            if spec.op == Op::IsEqual {
+                let expect = spec.pts[0].0.clone() % S::order() == spec.pts[1].0.clone() % S::order();
+                if r.outcome.bits.first() != Some(&expect) {
+                    ctx.oracle_fail(&format!("wrong-result:{key}"), "is_equal returns the wrong bit", detail(&r));
+                }
+            } else if !same_point(r.outcome.result.as_ref(), &r.expected, S::WEIER) {
+                ctx.oracle_fail(
+                    &format!("wrong-result:{key}"),
+                    "the circuit accepts an honest witness whose result differs from the group operation",
+                    detail(&r),
+                );
+            }
+        }
+        (Ok(true), false) => {
+            ctx.oracle_fail(&format!("accepted-documented-unsat:{key}"), "a case documented as unsatisfiable is accepted", detail(&r));
+        }
+        (_, true) => {
+            if known_identity_large_const::<S>(spec) {
+                ctx.oracle_fail(
+                    "foreign:mul_const:identity-base:scalar>=2^128",
+                    "mul_by_constant with a constant >= 2^128 rejects the identity base (honest witness generation panics)",
+                    detail(&r),
+                );
+            } else {
+                ctx.oracle_fail(
+                    &format!("honest-rejected:{key}"),
+                    "an honest witness of a satisfiable ECC instruction is rejected (or its synthesis panics)",
+                    detail(&r),
+                );
+            }
+        }
+        (_, false) => {}
+    }
+}
+
+/// Equality of circuit points as group elements (coordinates of an identity are irrelevant on
+/// the Weierstrass chips).
+fn same_point(a: Option<&Pt>, e: &Pt, weier: bool) -> bool {
+    match a {
+        None => false,
+        Some(a) => {
+            if weier {
+                a.id == e.id && (a.id == Some(true) || (a.x == e.x && a.y == e.y))
+            } else {
+                a.x == e.x && a.y == e.y
+            }
+        }
+    }
+}
+
+/// Fault values applied to a targeted advice cell.
+fn fault(kind: usize, rnd: F) -> Fault<F> {
+    use ff::Field;
+    match kind {
+        0 => Box::new(|v| v + F::ONE),
+        1 => Box::new(|v| F::ONE - v),
+        2 => Box::new(|v| -v),
+        3 => Box::new(move |_| rnd),
+        _ => Box::new(|v| v.double()),
+    }
+}
+
+/// Tamper sweep (H1) over the advice cells written by the operation of `spec`: every fault must
+/// be rejected, also when the public inputs are adjusted to the tampered value.
+fn tamper<S: Suite>(ctx: &mut Out, mut rng: rand_chacha::ChaCha8Rng, class: &str, spec: &Spec, max_targets: usize, kinds: &[usize]) {
+    use ff::Field;
+    let mut spec = spec.clone();
+    spec.bind_pi = true;
+    let honest_inst = S::honest_instance(&spec);
+    let (r0, k) = run_k::<S>(&spec, no_faults, Some(honest_inst.clone()));
+    spec.k = k;
+    let key = format!("{}:{}:{}", S::NAME, spec.op.name(), class);
+    if r0.verdict != Ok(true) {
+        if !(known_identity_large_const::<S>(&spec) || documented_unsat::<S>(&spec)) {
+            ctx.oracle_fail(
+                &format!("honest-rejected-pi:{key}"),
+                "honest witness with inputs and result bound as public inputs is rejected",
+                json!({"request": op_line::<S>(&spec).chars().take(1500).collect::<String>(), "verdict": format!("{:?}", r0.verdict), "failures": r0.failures}),
+            );
+        }
+        return;
+    }
+    ctx.count(&format!("tamper:case:{}:{}", S::NAME, spec.op.name()));
+    // a different result must be rejected
+    {
+        let wrong = S::instance_with_result(&spec, &b(0xC06C06));
+        let r = S::run(&spec, vec![], Some(wrong));
+        ctx.count("forged-instance:tried");
+        if r.verdict == Ok(true) && spec.op != Op::IsEqual {
+            ctx.oracle_fail(
+                &format!("wrong-instance-accepted:{key}"),
+                "the circuit accepts public inputs claiming a different result",
+                json!({"request": op_line::<S>(&spec).chars().take(1500).collect::<String>()}),
+            );
+        }
+    }
+    let (lo, hi) = (r0.outcome.op_start, r0.outcome.op_end);
+    if hi <= lo {
+        return;
+    }
+    let n = hi - lo;
+    let targets: Vec<usize> = if n <= max_targets {
+        (lo..hi).collect()
+    } else {
+        // always the first and last cells, then a seeded sample
+        let mut t = vec![lo, lo + 1, hi - 2, hi - 1];
+        while t.len() < max_targets {
+            let c = lo + (rng.next_u64() as usize) % n;
+            if !t.contains(&c) {
+                t.push(c);
+            }
+        }
+        t
+    };
+    for idx in targets {
+        for kind in kinds.iter() {
+            let rnd = F::random(&mut rng);
+            let r = S::run(&spec, vec![(idx, fault(*kind, rnd))], Some(honest_inst.clone()));
+            ctx.count("tamper:tried");
+            match &r.verdict {
+                Ok(true) => {
+                    // accepted with the honest public inputs: the bound result is unchanged
+                    ctx.count(&format!("tamper:accepted-result-unchanged:{}:{}", S::NAME, spec.op.name()));
+                }
+                Ok(false) => ctx.count("tamper:rejected"),
+                Err(_) => ctx.count("tamper:panic"),
+            }
+            // the same fault with the public inputs following the tampered value
+            if let Some(mp) = r.prover.as_ref() {
+                let _ = mp;
+            }
+            if r.verdict == Ok(false) {
+                // find the honest value of the tampered cell among the public inputs
+                let hit = r.hit.clone();
+                if let Some((before, after)) = hit {
+                    if before != after {
+                        let nb_in = honest_inst.len() - S::result_pi_len(&spec);
+                        let mut inst2 = honest_inst.clone();
+                        let mut changed = false;
+                        for (i, v) in inst2.iter_mut().enumerate() {
+                            if i >= nb_in && *v == before {
+                                *v = after;
+                                changed = true;
+                            }
+                        }
+                        if changed {
+                            let r2 = S::run(&spec, vec![(idx, fault_const(after))], Some(inst2));
+                            ctx.count("tamper:tried-with-adjusted-instance");
+                            if r2.verdict == Ok(true) {
+                                ctx.oracle_fail(
+                                    &format!("tampered-result-accepted:{key}"),
+                                    "a tampered result cell is accepted when the public inputs follow it",
+                                    json!({"request": op_line::<S>(&spec).chars().take(1500).collect::<String>(), "advice_index": idx, "fault": kind}),
+                                );
+                            }
+                        }
+                    }
+                }
+            }
+        }
+    }
+}
+
+fn fault_const(v: F) -> Fault<F> {
+    Box::new(move |_| v)
+}
+
+/// Operand classes (pairs of discrete logs) for binary operations.
+fn pair_classes(order: &BigUint, rnd: &[BigUint]) -> Vec<(&'static str, BigUint, BigUint)> {
+    let r1 = rnd[0].clone();
+    let r2 = rnd[1].clone();
+    vec![
+        ("id+id", b(0), b(0)),
+        ("id+G", b(0), b(1)),
+        ("G+id", b(1), b(0)),
+        ("id+rand", b(0), r1.clone()),
+        ("rand+id", r1.clone(), b(0)),
+        ("G+G", b(1), b(1)),
+        ("G+rand", b(1), r1.clone()),
+        ("rand+rand'", r1.clone(), r2.clone()),
+        ("P=Q", r1.clone(), r1.clone()),
+        ("P=-Q", r1.clone(), order - &r1),
+        ("G+(-G)", b(1), order - 1u8),
+        ("P+2P", r2.clone(), (&r2 * 2u8) % order),
+        ("P+(-2P)", r2.clone(), order - (&r2 * 2u8) % order),
+    ]
+}
+
+fn scalar_classes(order: &BigUint, bits: u32, rnd: &[BigUint]) -> Vec<(&'static str, BigUint)> {
+    vec![
+        ("0", b(0)),
+        ("1", b(1)),
+        ("2", b(2)),
+        ("r-1", order - 1u8),
+        ("r", order.clone()),
+        ("2^bits-1", pow2(bits) - 1u8),
+        ("rand", rnd[2].clone()),
+        ("rand'", rnd[3].clone()),
+    ]
+}
+
+fn spec(op: Op, pts: Vec<(BigUint, bool)>, scalars: Vec<BigUint>, k: u32) -> Spec {
+    Spec { op, pts, scalars, bind_pi: false, k }
+}
+
+struct Budget {
+    quick: bool,
+    /// number of random repetitions of the cheap classes
+    reps: usize,
+    /// msm sizes
+    msm_sizes: Vec<usize>,
+    /// all scalar classes in single-term msm
+    full_scalars: bool,
+    tamper_targets: usize,
+    tamper_kinds: Vec<usize>,
+}
+
+struct Jobs {
+    v: Vec<Job>,
+}
+
+impl Jobs {
+    fn case<S: Suite + 'static>(&mut self, class: &str, sp: Spec) {
+        let class = class.to_string();
+        self.v.push(Box::new(move || {
+            let mut o = Out::default();
+            do_case::<S>(&mut o, &class, &sp);
+            o
+        }));
+    }
+    fn tamper<S: Suite + 'static>(&mut self, ctx: &Ctx, class: &str, sp: Spec, targets: usize, kinds: Vec<usize>) {
+        let class = class.to_string();
+        let rng = ctx.rng(&format!("tamper:{}:{}:{}", S::NAME, sp.op.name(), class));
+        self.v.push(Box::new(move || {
+            let mut o = Out::default();
+            tamper::<S>(&mut o, rng, &class, &sp, targets, &kinds);
+            o
+        }));
+    }
+}
+
+fn suite_jobs<S: Suite + 'static>(ctx: &Ctx, jobs: &mut Jobs, bud: &Budget, scalar_bits: u32) {
+    let order = S::order();
+    let mut rng = ctx.rng(&format!("cases:{}", S::NAME));
+    let k_small = if S::WEIER { 12 } else { 9 };
+    let k_mul = if S::WEIER { 16 } else { 11 };
+    let lean = S::WEIER && bud.quick;
+    for rep in 0..bud.reps {
+        let rnd: Vec<BigUint> = (0..6).map(|_| rand_big(&mut rng, &order)).collect();
+        // binary / unary operations on every operand class
+        for (ci, (class, p, q)) in pair_classes(&order, &rnd).into_iter().enumerate() {
+            for (fp, fq) in [(false, false), (false, true)] {
+                if fq && (rep > 0 || (lean && ci % 4 != 1)) {
+                    continue;
+                }
+                let cl = format!("{class}{}", if fq { ":Qfixed" } else { "" });
+                jobs.case::<S>(&cl, spec(Op::Add, vec![(p.clone(), fp), (q.clone(), fq)], vec![], k_small));
+            }
+            if rep == 0 && !(lean && ci % 3 != 0) {
+                jobs.case::<S>(class, spec(Op::IsEqual, vec![(p.clone(), false), (q.clone(), false)], vec![], k_small));
+                jobs.case::<S>(class, spec(Op::Select(ci % 2 == 0), vec![(p.clone(), false), (q.clone(), false)], vec![], k_small));
+            }
+        }
+        for (class, p) in [("id", b(0)), ("G", b(1)), ("rand", rnd[0].clone()), ("-G", &order - 1u8), ("2G", b(2))] {
+            if rep > 0 && class != "rand" {
+                continue;
+            }
+            if lean && (class == "-G" || class == "2G") {
+                continue;
+            }
+            for op in [Op::Double, Op::Neg, Op::Assign, Op::AssignFixed, Op::Coords] {
+                jobs.case::<S>(class, spec(op, vec![(p.clone(), false)], vec![], k_small));
+            }
+        }
+        // multiplication by a constant: scalar classes x base classes, plus the 64/128-bit bands
+        let mut consts = scalar_classes(&order, scalar_bits, &rnd);
+        consts.extend(vec![
+            ("2^64-1", pow2(64) - 1u8),
+            ("2^64", pow2(64)),
+            ("2^64+5", pow2(64) + 5u8),
+            ("2^127+1", pow2(127) + 1u8),
+            ("2^128-1", pow2(128) - 1u8),
+            ("2^128", pow2(128)),
+            ("2^200+12345", pow2(200) + 12345u32),
+            ("8", b(8)),
+        ]);
+        for (sc, s) in consts.iter() {
+            for (pc, p) in [("id", b(0)), ("G", b(1)), ("rand", rnd[1].clone())] {
+                if rep > 0 && !(sc.starts_with("rand") && pc == "rand") {
+                    continue;
+                }
+                if lean {
+                    let keep = match pc {
+                        "rand" => !["2", "rand'", "2^64-1", "8", "2^bits-1"].contains(sc),
+                        "id" => ["0", "2^64", "2^200+12345", "r-1"].contains(sc),
+                        _ => ["2^64+5"].contains(sc),
+                    };
+                    if !keep {
+                        continue;
+                    }
+                }
+                jobs.case::<S>(&format!("{pc}x{sc}"), spec(Op::MulConst, vec![(p.clone(), false)], vec![s.clone()], k_mul));
+            }
+        }
+        // variable-base multiplication / msm
+        let scs = scalar_classes(&order, scalar_bits, &rnd);
+        for (sc, s) in scs.iter() {
+            if !bud.full_scalars && !["0", "1", "r-1", "rand"].contains(sc) {
+                continue;
+            }
+            for (pc, p) in [("id", b(0)), ("G", b(1)), ("rand", rnd[1].clone())] {
+                if rep > 0 && !(sc.starts_with("rand") && pc == "rand") {
+                    continue;
+                }
+                if lean && (pc == "G" || (pc == "id" && *sc != "rand")) {
+                    continue;
+                }
+                jobs.case::<S>(&format!("1:{pc}x{sc}"), spec(Op::Msm, vec![(p.clone(), false)], vec![s.clone()], k_mul + 1));
+            }
+        }
+        for n in bud.msm_sizes.iter().cloned() {
+            if n < 2 {
+                continue;
+            }
+            // mixed classes: bases id / G / random / repeated / opposite, scalars from all classes
+            let mut pts = vec![];
+            let mut scalars = vec![];
+            for i in 0..n {
+                let base = match (i + rep) % 5 {
+                    0 => rnd[0].clone(),
+                    1 => b(0),
+                    2 => b(1),
+                    3 => &order - &rnd[0],
+                    _ => rand_big(&mut rng, &order),
+                };
+                let sc = match (i + 2 * rep) % 6 {
+                    0 => rand_big(&mut rng, &order),
+                    1 => b(1),
+                    2 => &order - 1u8,
+                    3 => b(0),
+                    4 => rnd[4].clone(),
+                    _ => b(2),
+                };
+                pts.push((base, i % 3 == 2));
+                scalars.push(sc);
+            }
+            jobs.case::<S>(&format!("msm{n}:mixed"), spec(Op::Msm, pts.clone(), scalars.clone(), k_mul + 1));
+            // accumulator hitting the identity: s·P + s·(−P)
+            if n == 2 {
+                let s = rnd[5].clone();
+                jobs.case::<S>(
+                    "msm2:cancel",
+                    spec(Op::Msm, vec![(rnd[0].clone(), false), (&order - &rnd[0], false)], vec![s.clone(), s], k_mul + 1),
+                );
+            }
+        }
+    }
+}
+
+fn jub_special(ctx: &Ctx, jobs: &mut Jobs, reps: usize) {
+    type S = circ::jub::S;
+    let order = S::order();
+    let p = S::base_modulus();
+    let mut rng = ctx.rng("jub-special");
+    for rep in 0..reps {
+        let base = rand_big(&mut rng, &order);
+        // scalars at or above the group order, as 256-bit byte strings / canonical native values
+        let mut bytes_scalars = vec![
+            ("0", b(0)),
+            ("1", b(1)),
+            ("r-1", &order - 1u8),
+            ("r", order.clone()),
+            ("r+1", &order + 1u8),
+            ("8r", &order * 8u8),
+            ("2^252", pow2(252)),
+            ("2^256-1", pow2(256) - 1u8),
+            ("rand256", rand_big(&mut rng, &pow2(256))),
+        ];
+        if rep > 0 {
+            bytes_scalars = vec![("rand256", rand_big(&mut rng, &pow2(256)))];
+        }
+        for (sc, s) in bytes_scalars {
+            for (pc, d) in [("rand", base.clone()), ("id", b(0))] {
+                if pc == "id" && !["r", "2^256-1"].contains(&sc) {
+                    continue;
+                }
+                jobs.case::<S>(&format!("{pc}x{sc}"), spec(Op::MulLeBytes, vec![(d, false)], vec![s.clone()], 13));
+            }
+        }
+        let mut conv = vec![("p-1", &p - 1u8), ("r", order.clone()), ("2^254", pow2(254)), ("rand<p", rand_big(&mut rng, &p))];
+        if rep > 0 {
+            conv = vec![("rand<p", rand_big(&mut rng, &p))];
+        }
+        for (sc, s) in conv {
+            jobs.case::<S>(&format!("randx{sc}"), spec(Op::MulConvert, vec![(base.clone(), false)], vec![s], 13));
+        }
+    }
+}
+
+fn foreign_special<S: Suite + 'static>(ctx: &Ctx, jobs: &mut Jobs, bits: u32, thorough: bool) {
+    let order = S::order();
+    let mut rng = ctx.rng(&format!("foreign-special:{}", S::NAME));
+    let base = rand_big(&mut rng, &order);
+    // msm_by_le_bits with bit strings at or above the group order
+    let mut cases = vec![("r", order.clone(), bits as usize), ("2^bits-1", pow2(bits) - 1u8, bits as usize)];
+    if thorough {
+        cases.push(("r+1", &order + 1u8, bits as usize));
+        cases.push(("2^(bits+3)-1", pow2(bits + 3) - 1u8, bits as usize + 3));
+        cases.push(("5", b(5), 3));
+    }
+    for (sc, s, len) in cases {
+        jobs.case::<S>(&format!("randx{sc}"), spec(Op::MsmBits(vec![len]), vec![(base.clone(), false)], vec![s], 17));
+    }
+    jobs.case::<S>("idx5", spec(Op::MsmBits(vec![3]), vec![(b(0), false)], vec![b(5)], 15));
+    // bounded scalars (no GLV path), identity base
+    let small = rand_big(&mut rng, &pow2(64));
+    jobs.case::<S>("bounded64", spec(Op::MsmBounded(vec![64]), vec![(base.clone(), false)], vec![small.clone()], 16));
+    jobs.case::<S>("bounded64:id", spec(Op::MsmBounded(vec![64]), vec![(b(0), false)], vec![small.clone()], 16));
+}
+
+fn tamper_jobs(ctx: &Ctx, jobs: &mut Jobs, jub_bud: &Budget, for_bud: &Budget) {
+    let r = b(0x1234567);
+    let q = b(0x7654321);
+    // native chip
+    {
+        type S = circ::jub::S;
+        let order = S::order();
+        let cases = vec![
+            ("rand", spec(Op::Assign, vec![(r.clone(), false)], vec![], 10)),
+            ("rand+rand'", spec(Op::Add, vec![(r.clone(), false), (q.clone(), false)], vec![], 10)),
+            ("P=-Q", spec(Op::Add, vec![(r.clone(), false), (&order - &r, false)], vec![], 10)),
+            ("rand", spec(Op::Double, vec![(r.clone(), false)], vec![], 10)),
+            ("rand", spec(Op::Neg, vec![(r.clone(), false)], vec![], 10)),
+            ("rand", spec(Op::Coords, vec![(r.clone(), false)], vec![], 10)),
+            ("randx13", spec(Op::MulConst, vec![(r.clone(), false)], vec![b(13)], 11)),
+            ("1:randxrand", spec(Op::Msm, vec![(r.clone(), false)], vec![q.clone()], 12)),
+            ("msm2", spec(Op::Msm, vec![(r.clone(), false), (q.clone(), false)], vec![q.clone(), r.clone()], 12)),
+        ];
+        for (class, s) in cases {
+            jobs.tamper::<S>(ctx, class, s, jub_bud.tamper_targets, jub_bud.tamper_kinds.clone());
+        }
+    }
+    fn foreign<S: Suite + 'static>(ctx: &Ctx, jobs: &mut Jobs, bud: &Budget, r: &BigUint, q: &BigUint) {
+        let order = S::order();
+        let mut cases = vec![
+            ("rand", spec(Op::Assign, vec![(r.clone(), false)], vec![], 12)),
+            ("rand+rand'", spec(Op::Add, vec![(r.clone(), false), (q.clone(), false)], vec![], 12)),
+            ("P=Q", spec(Op::Add, vec![(r.clone(), false), (r.clone(), false)], vec![], 12)),
+            ("rand", spec(Op::Double, vec![(r.clone(), false)], vec![], 12)),
+        ];
+        if !bud.quick {
+            cases.push(("P=-Q", spec(Op::Add, vec![(r.clone(), false), (&order - r, false)], vec![], 12)));
+            cases.push(("id+rand", spec(Op::Add, vec![(b(0), false), (r.clone(), false)], vec![], 12)));
+            cases.push(("rand", spec(Op::Neg, vec![(r.clone(), false)], vec![], 12)));
+            cases.push(("rand", spec(Op::Coords, vec![(r.clone(), false)], vec![], 12)));
+            cases.push(("randx13", spec(Op::MulConst, vec![(r.clone(), false)], vec![b(13)], 14)));
+        }
+        for (class, s) in cases {
+            jobs.tamper::<S>(ctx, class, s, bud.tamper_targets, bud.tamper_kinds.clone());
+        }
+    }
+    foreign::<circ::secp::S>(ctx, jobs, for_bud, &r, &q);
+    foreign::<circ::bls::S>(ctx, jobs, for_bud, &r, &q);
+}
+
+pub fn run(ctx: &mut Ctx) {
+    let _ = layout();
+    let tier = ctx.tier.clone();
+    let (jub_bud, for_bud) = match tier.as_str() {
+        "quick" => (
+            Budget { quick: true, reps: 2, msm_sizes: vec![2, 3, 8], full_scalars: true, tamper_targets: 24, tamper_kinds: vec![0, 3] },
+            Budget { quick: true, reps: 1, msm_sizes: vec![2], full_scalars: false, tamper_targets: 6, tamper_kinds: vec![0] },
+        ),
+        "thorough" => (
+            Budget { quick: false, reps: 6, msm_sizes: vec![2, 3, 4, 5, 6, 7, 8], full_scalars: true, tamper_targets: 200, tamper_kinds: vec![0, 1, 2, 3] },
+            Budget { quick: false, reps: 2, msm_sizes: vec![2, 3, 4, 5, 6, 7, 8], full_scalars: true, tamper_targets: 40, tamper_kinds: vec![0, 3] },
+        ),
+        _ => (
+            Budget { quick: false, reps: 2, msm_sizes: vec![2, 3], full_scalars: true, tamper_targets: 2000, tamper_kinds: vec![0, 1, 2, 3, 4] },
+            Budget { quick: true, reps: 1, msm_sizes: vec![2], full_scalars: false, tamper_targets: 30, tamper_kinds: vec![0, 3] },
+        ),
+    };
+    let quick = tier == "quick";
+    let mut jobs = Jobs { v: vec![] };
+    suite_jobs::<circ::jub::S>(ctx, &mut jobs, &jub_bud, 252);
+    jub_special(ctx, &mut jobs, if quick { 1 } else { 4 });
+    suite_jobs::<circ::secp::S>(ctx, &mut jobs, &for_bud, 256);
+    suite_jobs::<circ::bls::S>(ctx, &mut jobs, &for_bud, 255);
+    foreign_special::<circ::secp::S>(ctx, &mut jobs, 256, !quick);
+    foreign_special::<circ::bls::S>(ctx, &mut jobs, 255, !quick);
+    // BLS subgroup check (regression of the cofactor multiplication)
+    for (class, d) in [("rand", b(0xABCDEF)), ("id", b(0)), ("G", b(1))] {
+        if quick && class == "G" {
+            continue;
+        }
+        jobs.case::<circ::bls::S>(class, spec(Op::SubgroupCheck, vec![(d, false)], vec![], 16));
+    }
+    tamper_jobs(ctx, &mut jobs, &jub_bud, &for_bud);
+    let threads = std::env::var("H_C06_THREADS").ok().and_then(|s| s.parse().ok()).unwrap_or(8);
+    ctx.count_n("jobs", jobs.v.len() as u64);
+    run_jobs(ctx, jobs.v, threads);
+}
+
 pub fn probe(args: &[String]) {
     let which = args.first().map(|s| s.as_str()).unwrap_or("all");
     if which == "all" || which == "jub" {
-        let spec = Spec { op: Op::Add, pts: vec![(b(5), false), (b(7), false)], scalars: vec![], bind_pi: false, k: 10 };
-        let r = circ::jub::run(&spec, vec![], None);
+        let sp = spec(Op::Add, vec![(b(5), false), (b(7), false)], vec![], 10);
+        let r = circ::jub::run(&sp, vec![], None);
         println!("jub add: {:?} out={:?} exp={:?} [{}..{}] {}", r.verdict, r.outcome.result, r.expected, r.outcome.op_start, r.outcome.op_end, r.failures);
-        let spec = Spec { op: Op::Msm, pts: vec![(b(5), false)], scalars: vec![b(3)], bind_pi: true, k: 11 };
-        let r = circ::jub::run(&spec, vec![], None);
-        println!("jub msm pi: {:?} out={:?} exp={:?} {}", r.verdict, r.outcome.result, r.expected, r.failures);
+        let lay = layout();
+        println!("{}", op_line::<circ::jub::S>(&sp));
+        println!("{}", lay.table(r.prover.as_ref().unwrap()));
     }
     if which == "all" || which == "mulc" {
-        // candidate defect: mul_by_constant with a scalar in [2^64, 2^128)
-        for (name, s) in [("2^64", BigUint::from(1u8) << 64), ("2^64+5", (BigUint::from(1u8) << 64) + 5u8), ("12345", b(12345)), ("2^127+1", (BigUint::from(1u8) << 127) + 1u8)] {
-            let spec = Spec { op: Op::MulConst, pts: vec![(b(5), false)], scalars: vec![s.clone()], bind_pi: false, k: 16 };
+        for (name, s) in [("2^64", pow2(64)), ("2^64+5", pow2(64) + 5u8), ("12345", b(12345)), ("2^127+1", pow2(127) + 1u8)] {
+            let sp = spec(Op::MulConst, vec![(b(5), false)], vec![s.clone()], 16);
             let t = std::time::Instant::now();
-            let r = circ::secp::run(&spec, vec![], None);
+            let r = circ::secp::run(&sp, vec![], None);
             println!("secp mul_const {name}: {:?} ok={} {} ({:?})", r.verdict, r.outcome.result.as_ref() == Some(&r.expected), r.failures, t.elapsed());
         }
-        let big: BigUint = (BigUint::from(1u8) << 200) + 12345u32;
+        let big: BigUint = pow2(200) + 12345u32;
         for (pname, d) in [("id", b(0)), ("5G", b(5))] {
-            let spec = Spec { op: Op::MulConst, pts: vec![(d, false)], scalars: vec![big.clone()], bind_pi: false, k: 17 };
+            let sp = spec(Op::MulConst, vec![(d, false)], vec![big.clone()], 17);
             let t = std::time::Instant::now();
-            let r = circ::secp::run(&spec, vec![], None);
+            let r = circ::secp::run(&sp, vec![], None);
             println!("secp mul_const 2^200+12345 * {pname}: {:?} ok={} {} ({:?})", r.verdict, r.outcome.result.as_ref() == Some(&r.expected), r.failures, t.elapsed());
         }
     }
     if which == "all" || which == "subgroup" {
-        let spec = Spec { op: Op::SubgroupCheck, pts: vec![(b(5), false)], scalars: vec![], bind_pi: false, k: 16 };
+        let sp = spec(Op::SubgroupCheck, vec![(b(5), false)], vec![], 16);
         let t = std::time::Instant::now();
-        let r = circ::bls::run(&spec, vec![], None);
+        let r = circ::bls::run(&sp, vec![], None);
         println!("bls subgroup_check(5G): {:?} {} ({:?})", r.verdict, r.failures, t.elapsed());
     }
 }
-
-pub fn run(_ctx: &mut Ctx) {}
